@@ -9,20 +9,21 @@ SPEC = {
     "props_module": "NDB.Props.C20",
     "corr_modules": ["NDB.Corr.C20"],
     "theorems": ["C20_permutation", "C20_sorted", "C20_cmp_total_preorder", "C20_order_by_one_key", "C20_skip_limit",
-                 "C20_temporal_refuted", "C20_mapnan_refuted"],
+                 "C20_temporal_refuted", "C20_cmp_total_preorder_all", "C20_order_by_sorted"],
     "allowed_axioms": _m.ALLOWED_PRIMITIVES,
     "harness_pkg": "hx_cypher",
     "harness_bin": "c20",
-    "n": {"quick": 1500, "thorough": 30000},
+    "n": {"quick": 1200, "thorough": 30000},
     "trusted_base": _m.TRUSTED_COMMON + [
         "Rust's slice::sort_by is an unspecified stable sort: it is modelled as the stable insertion sort, which every stable "
         "sort agrees with when the comparator is a total preorder on the rows (checked per case by `preorder_on`)",
     ],
     "assumptions": [
-        "the comparator is proved a total preorder for flat keys (null, booleans, all i64, all doubles incl. NaN, strings the "
-        "temporal parser rejects) and one sort key (ASC or DESC); for several keys and for lists/maps/ids as keys sortedness is "
-        "the conditional theorem C20_sorted, its hypothesis being decided per case by `preorder_on` in the correspondence",
-        "known classes K-C20-temporal and K-C20-mapnan are refuted by witness theorems and excluded from the exact prediction",
+        "the comparator is proved a total preorder on ALL modelled values without a temporal string at any depth (nested lists, "
+        "maps, node/relationship ids, paths, all i64, all doubles incl. NaN, nulls), and ORDER BY with any number of ASC/DESC keys "
+        "over such values is proved sorted (C20_order_by_sorted); rows must carry the keys of one ORDER BY clause (same directions)",
+        "known class K-C20-temporal is refuted by a witness theorem; for such keys only the conditional theorem C20_sorted applies "
+        "(hypothesis decided per case by `preorder_on`)",
     ],
     "manifest": {
         "category": "proof",
@@ -30,14 +31,15 @@ SPEC = {
                 "it is sorted (StronglySorted w.r.t. the modelled comparator) whenever the comparator is total and transitive on "
                 "the rows, and then it is the unique stable result; the comparator is a total preorder on all flat keys (null, "
                 "booleans, every i64, every double, non-temporal strings), so ORDER BY on one flat key, ASC or DESC, is sorted "
-                "unconditionally; SKIP s LIMIT l = firstn l (skipn s ...), i.e. positions s..s+l-1. Refuted with witnesses: "
-                "temporal strings mixed with other strings (3-cycle) and maps containing NaN. Real ORDER BY queries are run "
+                "unconditionally; more generally the comparator is a total preorder on all values (nested lists, maps, ids, paths) "
+                "that contain no temporal string, so ORDER BY with any number of ASC/DESC keys over them is sorted; SKIP s LIMIT l = "
+                "firstn l (skipn s ...), i.e. positions s..s+l-1. Refuted with a witness: temporal strings mixed with other "
+                "strings (3-cycle). Real ORDER BY queries are run "
                 "through the engine, the model is evaluated on the same rows in Coq, and sortedness/stability/slicing are "
                 "tested directly against an independent exact comparator.",
         "design_ref": "DESIGN.md §5 C20",
         "level_note": "Trusted: Coq kernel incl. primitive floats; hand-written model tied to the code by sampled correspondence; "
-                      "stable-sort uniqueness argument; temporal parser taken as data. Multi-key / nested-key sortedness is "
-                      "conditional (hypothesis decided per sampled case).",
+                      "stable-sort uniqueness argument; temporal parser taken as data.",
         "technique": "Rocq proof (insertion sort: Permutation + StronglySorted; order embedding of flat keys into Z) + vm_compute "
                      "correspondence on ORDER BY queries run through the engine + direct search",
     },
